@@ -27,7 +27,10 @@ CFG = "SPECIFICATION Spec\nCONSTANTS\n  MaxLen = %d\n  Mode = \"%s\"\nINVARIANTS
 
 BYTE_CLASSES = [b"a", b"Z", b"_", b"0", b"7", b"9", b".", b"e", b"x", b"\"", b"'", b"`", b"\\", b"\n", b"\r", b" ", b"\t", b"/", b"*", b"+", b"-", b"=",
                 b":", b";", b"(", b")", b"[", b"]", b"{", b"}", b",", b"?", b"!", b"&", b"|", b"<", b"\x00", b"\xef\xbb\xbf", b"\x80", b"\xc3", b"\xc3\xa9",
-                b"\xe4\xb8\x96", b"\xf0\x9f\x98\x80", b"\xff", b"#", b"$", b"@", b"~"]
+                b"\xe4\xb8\x96", b"\xf0\x9f\x98\x80", b"\xff", b"#", b"$", b"@", b"~",
+                # other Unicode categories: decimal digits of other scripts, fullwidth digit/letter, combining mark, no-break / zero-width
+                # space, line separator, a letter-number, a superscript digit
+                b"\xd9\xa3", b"\xef\xbc\x91", b"\xef\xbd\x81", b"\xcc\x81", b"\xc2\xa0", b"\xe2\x80\x8b", b"\xe2\x80\xa8", b"\xe2\x85\xa7", b"\xc2\xb2"]
 
 STATIC = {
     "unresolved_read": "r := nope + 1",
@@ -190,6 +193,17 @@ def run(ck):
         add(src="x := 0\nreturn %s\n" % l, tag="arity:return", asmod=True, run=True)
         add(src="x := 0\nr := x ? %s\n" % l.replace(", ", " : "), tag="arity:ternary", run=True)
         add(src="x := 0\nif %s { x = 1 }\nfor %s { break }\n" % (l.replace(", ", "; "), l.replace(", ", "; ")), tag="arity:if-for-clauses", run=True)
+    # ---- (6b') assignment targets: every kind of expression as the root of the left-hand side x every assignment form
+    roots = ["a", "f()", "[1, 2]", '"abc"', "{k: 1}", "(a)", "1", "undefined", "true", "'c'", "func() {}", "a.b", "a[0]", "f().g()", "import(\"m\")", "error(1)",
+             "immutable([1])", "(a + 1)", "-a", "a ? a : a"]
+    sels = ["", ".x", "[0]", ".x.y", "[0][1]", '["k"]', ".x[0]", "[0:1]", "()", "().x"]
+    forms = ["%s = 1", "%s := 1", "%s += 1", "%s++", "%s--", "%s <<= 1", "%s, b = 1, 2", "b, %s = 1, 2", "%s = %s"]
+    for r_ in roots:
+        for sl in sels:
+            for fm in forms:
+                lhs = r_ + sl
+                src = "a := {x: {y: 1}, b: 2}\nf := func() { return {x: 1} }\n" + (fm % ((lhs, lhs) if fm.count("%s") == 2 else lhs)) + "\n"
+                add(src=src, tag="lvalue", run=True)
     # ---- (6c) openers of multi-character tokens with every short tail (unterminated comments/strings/chars ending in the
     # characters their scanners look ahead for), and floods of scanner errors in first and in later position
     tails_alpha = [b"*", b"/", b"\r", b"\n", b"\\", b"\"", b"'", b"`", b"\x00", b"\xff", b"a", b" "]
